@@ -1070,9 +1070,67 @@ class Interp:
                     swallow = True
             if not swallow:
                 raise
+        except (_Return, _Break, _Continue):
+            for cm in reversed(mgrs):
+                self.call(self.getattr(cm, "__exit__"), [None, None, None], {})
+            raise
         else:
             for cm in reversed(mgrs):
                 self.call(self.getattr(cm, "__exit__"), [None, None, None], {})
+
+    # ---- match statement (literal, capture, wildcard, or, sequence, mapping-free class patterns)
+    def st_Match(self, st, fr):
+        subject = self.ev(st.subject, fr)
+        for case in st.cases:
+            if self._match(case.pattern, subject, fr) and (case.guard is None or self.truth(self.ev(case.guard, fr))):
+                self.exec_block(case.body, fr)
+                return
+
+    def _match(self, p, v, fr):
+        if isinstance(p, ast.MatchValue):
+            return self.eq(v, self.ev(p.value, fr))
+        if isinstance(p, ast.MatchSingleton):
+            return v is p.value
+        if isinstance(p, ast.MatchAs):
+            if p.pattern is not None and not self._match(p.pattern, v, fr):
+                return False
+            if p.name is not None:
+                self._store_name(p.name, v, fr)
+            return True
+        if isinstance(p, ast.MatchOr):
+            return any(self._match(q, v, fr) for q in p.patterns)
+        if isinstance(p, ast.MatchSequence):
+            if not isinstance(v, Seq) or v.has_seg():
+                if isinstance(v, Seq):
+                    raise Unknown("sequence pattern on an opaque sequence")
+                return False
+            pats = p.patterns
+            star = [i for i, q in enumerate(pats) if isinstance(q, ast.MatchStar)]
+            if not star:
+                return len(pats) == len(v.items) and all(self._match(q, x, fr) for q, x in zip(pats, v.items))
+            i = star[0]
+            after = len(pats) - i - 1
+            if len(v.items) < len(pats) - 1:
+                return False
+            ok = all(self._match(q, x, fr) for q, x in zip(pats[:i], v.items[:i])) and all(self._match(q, x, fr) for q, x in zip(pats[i + 1:], v.items[len(v.items) - after:]))
+            if ok and pats[i].name:
+                self._store_name(pats[i].name, Seq(v.items[i:len(v.items) - after], "list"), fr)
+            return ok
+        if isinstance(p, ast.MatchClass):
+            c = self.ev(p.cls, fr)
+            if not isinstance(c, ClassV) or not self.w.B.typeof(v).issub(c):
+                return False
+            if p.patterns:
+                raise Unknown("positional class pattern")
+            for name, q in zip(p.kwd_attrs, p.kwd_patterns):
+                try:
+                    x = self.getattr(v, name)
+                except Raised:
+                    return False
+                if not self._match(q, x, fr):
+                    return False
+            return True
+        raise Unknown(f"unsupported match pattern {type(p).__name__}")
 
     # ================================================================ assignment
     def _store_name(self, name, v, fr):
